@@ -56,6 +56,13 @@ Fixpoint write_loop (fs : list (bytes * option bytes)) (out : bytes) : bytes * o
 
 Definition write_to (c : ctx) : bytes * outcome unit err := write_loop (write_fields c) [].
 
+(* to_bstring(): `self.write_to(&mut buf).expect("infallible")` — a refused value is a panic here *)
+Definition to_bstring (c : ctx) : outcome bytes err :=
+  match write_to c with
+  | (out, Ok _) => Ok out
+  | (_, _) => Panic
+  end.
+
 (* ---- bstr lines() --------------------------------------------------------------------- *)
 
 (* LinesWithTerminator: cut after every LF; a non-empty unterminated rest is the last line *)
